@@ -156,3 +156,10 @@ pub fn install_panic_recorder() {
         let _ = &prev;
     }));
 }
+
+/// For child roles: die with the parent (an orphan would keep the driver's pipes open).
+pub fn die_with_parent() {
+    unsafe {
+        libc::prctl(libc::PR_SET_PDEATHSIG, libc::SIGKILL);
+    }
+}
